@@ -416,9 +416,13 @@ class FracLaplSettings(BaseSettings):
             kf ** (3 + 2 * s) / (np.pi**2 * (3 + 2 * s))
             for s in self.slist[: self.nk0]
         ]
-        # TODO ndd components actually aren't zero for UEG
+        # F_s^dd contracts the gradients of both indices of the density matrix,
+        # which adds a factor k^2 to the integrand over the Fermi sphere
+        vec_dd = [
+            kf ** (5 + 2 * s) / (np.pi**2 * (5 + 2 * s)) for s in self.slist[: self.ndd]
+        ]
         return np.array(
-            vec + [0] * (len(self.l1_dots) + len(self.ld_dots) + self.ndd),
+            vec + [0] * (len(self.l1_dots) + len(self.ld_dots)) + vec_dd,
             dtype=np.float64,
         )
 
